@@ -16,6 +16,11 @@ Hypotheses (exactly those the proofs use):
   request does not mention is selected (reproduced on /repo: `select` returns it with a change holding −5) although
   the selection then "covers" 0 with −5; the ledger admits no such entry.
 
+The input limit (`lf_limit`, `ri_limit`) needs none of these hypotheses: it holds for every pool, request, flags, index
+stream and every limit `l ≥ 0`, the inputs added by the min-change top-up included.  `max_input_count` is tested with
+`is not None` everywhere (repair of KF-C14-limit), so `0` is a limit — "no input may be selected" — and the top-up is
+handed the remaining budget `l - len(selected)`, where `0` means "no further input".
+
 Pool immutability is not a theorem: the model is pure (`pool` is an argument, never returned or rebound), and the
 implementation's working copies (`sorted(utxos)`, `list(utxos)`) are checked by byte snapshot in the harness. -/
 
@@ -82,31 +87,23 @@ theorem lf_change (env : Env) (pool : List UTxO) (outputs : List Output) (limit 
   obtain ⟨f, hf, g⟩ := lfSelect_ok (PoolN.ofWF hp) hd env outputs ho limit includeFee respectMin sel change h
   exact ⟨f, hf, good_change ho g⟩
 
-/-- GOAL: never more inputs than the stated limit. -/
-def lf_limit_goal : Prop :=
-  ∀ (env : Env) (pool : List UTxO) (outputs : List Output) (l : Int) (includeFee respectMin : Bool)
-    (sel : List UTxO) (change : Value), 0 < l →
-    lfSelect env pool outputs (some l) includeFee respectMin = .ok (sel, change) → (sel.length : Int) ≤ l
-
-/-- proved part: the limit holds unless the first phase ended with exactly `l` inputs and the min-change
-top-up — called with `max_input_count - len(selected) = 0`, which is falsy — added more -/
-theorem lf_limit_partial (env : Env) (pool : List UTxO) (outputs : List Output) (l : Int)
-    (includeFee respectMin : Bool) (sel : List UTxO) (change : Value) (hl : 0 < l)
+/-- never more inputs than the stated limit: whenever a selection is returned and a limit `l ≥ 0` was given,
+`len(selected) ≤ l` — the inputs added by the min-change top-up included (it is handed the remaining budget
+`l - len(selected)`, and a remaining budget of 0 means "no further input") -/
+theorem lf_limit (env : Env) (pool : List UTxO) (outputs : List Output) (l : Int)
+    (includeFee respectMin : Bool) (sel : List UTxO) (change : Value) (hl : 0 ≤ l)
     (h : lfSelect env pool outputs (some l) includeFee respectMin = .ok (sel, change)) :
-    (sel.length : Int) ≤ l ∨
-    (respectMin = true ∧ ∃ fee s, feeOf env includeFee = some fee ∧ lfBase fee pool outputs (some l) = .ok s ∧
-      (s.sel.length : Int) = l ∧ s.sel.length < sel.length) :=
+    (sel.length : Int) ≤ l :=
   lfSelect_limit env pool outputs l hl includeFee respectMin sel change h
 
-/-- without the min-change mode the limit holds -/
-theorem lf_limit_no_min_change (env : Env) (pool : List UTxO) (outputs : List Output) (l : Int)
-    (includeFee : Bool) (sel : List UTxO) (change : Value) (hl : 0 < l)
-    (h : lfSelect env pool outputs (some l) includeFee false = .ok (sel, change)) : (sel.length : Int) ≤ l := by
-  rcases lfSelect_limit env pool outputs l hl includeFee false sel change h with h | h
-  · exact h
-  · exact absurd h.1 (by decide)
+/-- `max_input_count=0` is a limit ("no input may be selected"), not "no limit": a returned selection is empty -/
+theorem lf_limit_zero (env : Env) (pool : List UTxO) (outputs : List Output)
+    (includeFee respectMin : Bool) (sel : List UTxO) (change : Value)
+    (h : lfSelect env pool outputs (some 0) includeFee respectMin = .ok (sel, change)) : sel = [] := by
+  have := lf_limit env pool outputs 0 includeFee respectMin sel change (by decide) h
+  exact List.eq_nil_of_length_eq_zero (by omega)
 
-/-! ### the witness of KF-C14-limit -/
+/-! ### witnesses (the inputs on which the limit was exceeded before the repair, KF-C14-limit) -/
 
 def wFee : FeeParams :=
   { a := ⟨44, 1⟩, b := ⟨155381, 1⟩, priceStep := ⟨721, 10000000⟩, priceMem := ⟨577, 10000⟩,
@@ -117,19 +114,30 @@ def wUtxo (i : Nat) (v : Value) : UTxO := ⟨[UInt8.ofNat i], 0, { addr := [0x61
 def wOut (v : Value) : Output := { addr := [0x61], amount := v }
 /-- 3 ADA and 2 ADA; 2.9 ADA requested: the first input covers, its change (0.1 ADA) is below the minimum -/
 def wPool : List UTxO := [wUtxo 1 ⟨3000000, []⟩, wUtxo 2 ⟨2000000, []⟩]
+/-- 3 ADA and twice 0.5 ADA: the change of 0.1 ADA needs both small entries to reach the minimum (978 370) -/
+def wPool1 : List UTxO := [wUtxo 1 ⟨3000000, []⟩, wUtxo 2 ⟨500000, []⟩, wUtxo 3 ⟨500000, []⟩]
 
-/-- `LargestFirstSelector().select(pool, [2.9 ADA], ctx, max_input_count=1, include_max_fee=False)` returns 2 inputs -/
-theorem lf_limit_counterexample : ¬ lf_limit_goal := by
-  intro h
-  have e : selLen (lfSelect wEnv wPool [wOut ⟨2900000, []⟩] (some 1) false true) = 2 := by decide +kernel
-  cases hr : lfSelect wEnv wPool [wOut ⟨2900000, []⟩] (some 1) false true with
-  | error x => rw [hr] at e; simp [selLen] at e
-  | ok r =>
-    obtain ⟨sel, change⟩ := r
-    rw [hr] at e
-    simp only [selLen] at e
-    have := h wEnv wPool _ 1 false true sel change (by decide) hr
-    omega
+/-- `LargestFirstSelector().select(pool, [2.9 ADA], ctx, max_input_count=1, include_max_fee=False)`: the first phase
+ends exactly at the limit, the top-up runs with the remaining budget 0 and refuses the second input
+(`MaxInputCountExceededException`; 2 inputs were returned before the repair); with `max_input_count=2` the same
+call returns the 2 inputs.  On `wPool1` the top-up needs two more inputs: refused for the limits 1 and 2 (3 inputs
+were returned for the limit 1 before the repair), 3 inputs for the limit 3. -/
+example :
+    errOf (lfSelect wEnv wPool [wOut ⟨2900000, []⟩] (some 1) false true) = some .maxInputs ∧
+    selLen (lfSelect wEnv wPool [wOut ⟨2900000, []⟩] (some 2) false true) = 2 ∧
+    errOf (lfSelect wEnv wPool1 [wOut ⟨2900000, []⟩] (some 1) false true) = some .maxInputs ∧
+    errOf (lfSelect wEnv wPool1 [wOut ⟨2900000, []⟩] (some 2) false true) = some .maxInputs ∧
+    selLen (lfSelect wEnv wPool1 [wOut ⟨2900000, []⟩] (some 3) false true) = 3 := by decide +kernel
+
+/-- `max_input_count=0`: an empty request is served with no input; a request that needs an input is refused
+(`MaxInputCountExceededException`, or `InsufficientUTxOBalanceException` when the pool is empty: that test comes
+first); an empty request whose (zero) change is below the minimum is refused by the top-up -/
+example :
+    selLen (lfSelect wEnv wPool [] (some 0) false false) = 0 ∧
+    errOf (lfSelect wEnv wPool [] (some 0) false false) = none ∧
+    errOf (lfSelect wEnv wPool [wOut ⟨1000000, []⟩] (some 0) false false) = some .maxInputs ∧
+    errOf (lfSelect wEnv [] [wOut ⟨1000000, []⟩] (some 0) false false) = some .insufficient ∧
+    errOf (lfSelect wEnv wPool [] (some 0) false true) = some .maxInputs := by decide +kernel
 
 /-- when largest-first reports an insufficient balance, the pool does not cover the request (plus fee) — or, in
 min-change mode, the pool's ADA is below request + the minimum change of the first-phase selection -/
@@ -155,10 +163,6 @@ theorem lf_insufficient_genuine (env : Env) (pool : List UTxO) (outputs : List O
   · right
     refine ⟨hm, s, mc, h1, h2, ?_⟩
     rw [hs.2.2.1] at h3; exact h3
-
-/-- the limit can be exceeded by more than one input: 3 inputs for `max_input_count=1` -/
-example : selLen (lfSelect wEnv [wUtxo 1 ⟨3000000, []⟩, wUtxo 2 ⟨500000, []⟩, wUtxo 3 ⟨500000, []⟩]
-    [wOut ⟨2900000, []⟩] (some 1) false true) = 3 := by decide +kernel
 
 /-! ## RandomImproveMultiAsset (`stream` = the injected random indices, universally quantified) -/
 
@@ -198,44 +202,55 @@ theorem ri_terminates (env : Env) (pool : List UTxO) (outputs : List Output) (li
     riSelect env pool outputs limit includeFee respectMin stream ≠ .error .fuel :=
   riSelect_fuel env pool outputs limit includeFee respectMin stream
 
-/-- GOAL: never more inputs than the stated limit. -/
-def ri_limit_goal : Prop :=
-  ∀ (env : Env) (pool : List UTxO) (outputs : List Output) (l : Int) (includeFee respectMin : Bool)
-    (stream : List Nat) (sel : List UTxO) (change : Value), 0 < l →
-    riSelect env pool outputs (some l) includeFee respectMin stream = .ok (sel, change) → (sel.length : Int) ≤ l
-
-/-- proved part: at most ONE input above the limit (`_improve` tests `len(selected) > max_input_count` before it
-appends) — unless the first two phases ended with exactly `l` inputs and the min-change top-up, called with
-`max_input_count - len(selected) = 0` (falsy), added more -/
-theorem ri_limit_partial (env : Env) (pool : List UTxO) (outputs : List Output) (l : Int)
-    (includeFee respectMin : Bool) (stream : List Nat) (sel : List UTxO) (change : Value) (hl : 0 < l)
+/-- never more inputs than the stated limit, whatever the random choices: whenever a selection is returned and a
+limit `l ≥ 0` was given, `len(selected) ≤ l`.  Phase 1 tests the limit after each asset's subset, `_improve` returns
+before appending when `len(selected) >= max_input_count`, and the recursive min-change top-up is handed the remaining
+budget `l - len(selected)` (0 = "no further input"). -/
+theorem ri_limit (env : Env) (pool : List UTxO) (outputs : List Output) (l : Int)
+    (includeFee respectMin : Bool) (stream : List Nat) (sel : List UTxO) (change : Value) (hl : 0 ≤ l)
     (h : riSelect env pool outputs (some l) includeFee respectMin stream = .ok (sel, change)) :
-    (sel.length : Int) ≤ l + 1 ∨
-    (respectMin = true ∧ ∃ fee s, feeOf env includeFee = some fee ∧
-      riBase fee pool outputs (some l) stream = .ok s ∧ (s.sel.length : Int) = l ∧ s.sel.length < sel.length) :=
+    (sel.length : Int) ≤ l :=
   riSelect_limit env pool outputs l hl includeFee respectMin stream sel change h
 
-/-- three UTxOs of 1 ADA, 1 ADA requested, `max_input_count=1`, indices 0,0: the first phase takes one input, the
-improvement step (ideal 2 ADA) appends a second one because the limit is tested before appending -/
-theorem ri_limit_counterexample : ¬ ri_limit_goal := by
-  intro h
-  have e : selLen (riSelect wEnv [wUtxo 1 ⟨1000000, []⟩, wUtxo 2 ⟨1000000, []⟩, wUtxo 3 ⟨1000000, []⟩]
-      [wOut ⟨1000000, []⟩] (some 1) false false [0, 0, 0]) = 2 := by decide +kernel
-  cases hr : riSelect wEnv [wUtxo 1 ⟨1000000, []⟩, wUtxo 2 ⟨1000000, []⟩, wUtxo 3 ⟨1000000, []⟩]
-      [wOut ⟨1000000, []⟩] (some 1) false false [0, 0, 0] with
-  | error x => rw [hr] at e; simp [selLen] at e
-  | ok r =>
-    obtain ⟨sel, change⟩ := r
-    rw [hr] at e
-    simp only [selLen] at e
-    have := h wEnv _ _ 1 false false _ sel change (by decide) hr
-    omega
+/-- `max_input_count=0` is a limit ("no input may be selected"), not "no limit": a returned selection is empty -/
+theorem ri_limit_zero (env : Env) (pool : List UTxO) (outputs : List Output)
+    (includeFee respectMin : Bool) (stream : List Nat) (sel : List UTxO) (change : Value)
+    (h : riSelect env pool outputs (some 0) includeFee respectMin stream = .ok (sel, change)) : sel = [] := by
+  have := ri_limit env pool outputs 0 includeFee respectMin stream sel change (by decide) h
+  exact List.eq_nil_of_length_eq_zero (by omega)
 
-/-- the top-up mechanism on the randomized strategy: the witness of `lf_limit_counterexample`, 2 inputs for limit 1;
-and a pool on which the top-up adds two inputs (limit + 2; the out-of-range index 5 ends the improvement step) -/
-example : selLen (riSelect wEnv wPool [wOut ⟨2900000, []⟩] (some 1) false true [0, 0, 0, 0]) = 2 ∧
-    selLen (riSelect wEnv [wUtxo 1 ⟨3000000, []⟩, wUtxo 2 ⟨500000, []⟩, wUtxo 3 ⟨500000, []⟩]
-      [wOut ⟨2900000, []⟩] (some 1) false true [0, 5, 0, 0]) = 3 := by decide +kernel
+/-- three UTxOs of 1 ADA, 1 ADA requested, indices 0,0,0.  `max_input_count=1`: the first phase takes one input and
+the improvement step (ideal 2 ADA) now returns without appending — 1 input (2 before the repair: the limit was tested
+with `>` before appending).  `max_input_count=2`: the improvement step appends the second input; no limit: the same. -/
+example :
+    selLen (riSelect wEnv [wUtxo 1 ⟨1000000, []⟩, wUtxo 2 ⟨1000000, []⟩, wUtxo 3 ⟨1000000, []⟩]
+      [wOut ⟨1000000, []⟩] (some 1) false false [0, 0, 0]) = 1 ∧
+    selLen (riSelect wEnv [wUtxo 1 ⟨1000000, []⟩, wUtxo 2 ⟨1000000, []⟩, wUtxo 3 ⟨1000000, []⟩]
+      [wOut ⟨1000000, []⟩] (some 2) false false [0, 0, 0]) = 2 ∧
+    selLen (riSelect wEnv [wUtxo 1 ⟨1000000, []⟩, wUtxo 2 ⟨1000000, []⟩, wUtxo 3 ⟨1000000, []⟩]
+      [wOut ⟨1000000, []⟩] none false false [0, 0, 0]) = 2 := by decide +kernel
+
+/-- the top-up mechanism on the randomized strategy: on the largest-first witnesses the recursive top-up, run with the
+remaining budget 0, refuses a further input (2 resp. 3 inputs were returned for the limit 1 before the repair).  At the
+limit `_improve` returns before drawing an index, so the whole stream after phase 1 goes to the top-up; below the limit
+(limits 2, 3 on `wPool1`) it draws the out-of-range index 5, which ends the improvement step.  With a sufficient limit
+the inputs are returned. -/
+example :
+    errOf (riSelect wEnv wPool [wOut ⟨2900000, []⟩] (some 1) false true [0, 0, 0, 0]) = some .maxInputs ∧
+    selLen (riSelect wEnv wPool [wOut ⟨2900000, []⟩] (some 2) false true [0, 0, 0, 0]) = 2 ∧
+    errOf (riSelect wEnv wPool1 [wOut ⟨2900000, []⟩] (some 1) false true [0, 0, 0, 0]) = some .maxInputs ∧
+    errOf (riSelect wEnv wPool1 [wOut ⟨2900000, []⟩] (some 2) false true [0, 5, 0, 0]) = some .maxInputs ∧
+    selLen (riSelect wEnv wPool1 [wOut ⟨2900000, []⟩] (some 3) false true [0, 5, 0, 0]) = 3 := by decide +kernel
+
+/-- `max_input_count=0`: an empty request is served with no input, a request that needs an input is refused
+(`MaxInputCountExceededException` by phase 1; `InputUTxODepletedException` when the pool is empty: that test comes
+first); an empty request whose (zero) change is below the minimum is refused by the top-up -/
+example :
+    selLen (riSelect wEnv wPool [] (some 0) false false [0]) = 0 ∧
+    errOf (riSelect wEnv wPool [] (some 0) false false [0]) = none ∧
+    errOf (riSelect wEnv wPool [wOut ⟨1000000, []⟩] (some 0) false false [0]) = some .maxInputs ∧
+    errOf (riSelect wEnv [] [wOut ⟨1000000, []⟩] (some 0) false false [0]) = some .depleted ∧
+    errOf (riSelect wEnv wPool [] (some 0) false true [0]) = some .maxInputs := by decide +kernel
 
 /-! ## the non-negativity hypothesis of `lf_covers` / `ri_covers` is needed -/
 
@@ -274,13 +289,12 @@ end Pyc.C14
 #print axioms Pyc.C14.lf_subset
 #print axioms Pyc.C14.lf_covers
 #print axioms Pyc.C14.lf_change
-#print axioms Pyc.C14.lf_limit_partial
-#print axioms Pyc.C14.lf_limit_no_min_change
-#print axioms Pyc.C14.lf_limit_counterexample
+#print axioms Pyc.C14.lf_limit
+#print axioms Pyc.C14.lf_limit_zero
 #print axioms Pyc.C14.lf_insufficient_genuine
 #print axioms Pyc.C14.ri_subset
 #print axioms Pyc.C14.ri_covers
 #print axioms Pyc.C14.ri_change
 #print axioms Pyc.C14.ri_terminates
-#print axioms Pyc.C14.ri_limit_partial
-#print axioms Pyc.C14.ri_limit_counterexample
+#print axioms Pyc.C14.ri_limit
+#print axioms Pyc.C14.ri_limit_zero
